@@ -104,4 +104,16 @@ def check(run):
                            "detail": "re-creating a tree right after dropping the previous one failed, lost flushed data, or took more than 30 s: " + line})
     except Exception:
         run.violation({"property": run.pid, "kind": "impl-vs-spec", "stream": "reopen-loop", "ops": ["reopen_loop"], "detail": "no result: " + line[:200]})
-    run.rules.append("(1) one fixed workload (batch range writes on persistent trees of depth 4/7/10 with roots and subtree roots, batch API writes, verification of real messages, full witnesses, the QAP witness map's h vector, proof values) under RAYON_NUM_THREADS = 1, 2, 4, 16: transcripts must be bit-identical, and the single-thread transcript equals model and specification; (2) 8 (thorough: 2/8/32) threads issuing the same read-only calls (three verification entry points on valid / tampered / stale-root messages, root, leaves, proofs, subtree roots, empty list, metadata, key derivation, hashing, recovery) at different offsets on ONE shared instance vs the sequential results, plus a hot loop of thousands of cheap read-only calls (membership proofs, leaves, subtree roots of different positions) per thread, with a 900 s watchdog; (3) drop + re-create on the same storage location in a loop; distinct = distinct workload line")
+    # ---------------------------------------------------------------- (4) opening is not serialised behind a thread that waits for a busy location
+    try:
+        p = subprocess.run([zkh, "open_contention"], stdout=subprocess.PIPE, stderr=subprocess.PIPE, timeout=300)
+        line = p.stdout.decode().strip()
+    except subprocess.TimeoutExpired:
+        line = "no answer within 300 s"
+    run.cov["open_contention"] = line
+    run.count_case("open_contention")
+    d = dict(kv.split("=") for kv in line.split(" ") if "=" in kv and kv.count("=") == 1)
+    if "p2_worst_ms" not in d or int(d["p2_worst_ms"]) > 10000 or d.get("p2_failures") != "0" or d.get("waiter_opened") != "true":
+        run.violation({"property": run.pid, "kind": "impl-vs-spec", "stream": "open-contention", "ops": ["open_contention"], "impl_args": ["open_contention"],
+                       "detail": "with a live tree on location P1 and a thread waiting to open P1, ten drop + re-create cycles on an unrelated location P2 must each finish at once, and the waiter must get P1 once it is released: " + line[:200]})
+    run.rules.append("(4) three parties in one process: a live tree on P1, a thread waiting to open P1, and drop + re-create cycles on an unrelated P2 with a 30 s watchdog; (1) one fixed workload (batch range writes on persistent trees of depth 4/7/10 with roots and subtree roots, batch API writes, verification of real messages, full witnesses, the QAP witness map's h vector, proof values) under RAYON_NUM_THREADS = 1, 2, 4, 16: transcripts must be bit-identical, and the single-thread transcript equals model and specification; (2) 8 (thorough: 2/8/32) threads issuing the same read-only calls (three verification entry points on valid / tampered / stale-root messages, root, leaves, proofs, subtree roots, empty list, metadata, key derivation, hashing, recovery) at different offsets on ONE shared instance vs the sequential results, plus a hot loop of thousands of cheap read-only calls (membership proofs, leaves, subtree roots of different positions) per thread, with a 900 s watchdog; (3) drop + re-create on the same storage location in a loop; distinct = distinct workload line")
